@@ -26,8 +26,8 @@ type LinForm struct {
 	Why string
 }
 
-func lfConst(c int64) LinForm { return LinForm{C: c, T: map[string]int64{}} }
-func lfTerm(t string) LinForm { return LinForm{T: map[string]int64{t: 1}} }
+func lfConst(c int64) LinForm  { return LinForm{C: c, T: map[string]int64{}} }
+func lfTerm(t string) LinForm  { return LinForm{T: map[string]int64{t: 1}} }
 func lfTop(why string) LinForm { return LinForm{Top: true, Why: why} }
 
 func (a LinForm) clone() LinForm {
